@@ -50,18 +50,40 @@ def plan(tier, seed):
             for first in range(8):
                 shards.append(dict(moving=moving, safe=safe, L=L,
                                    first=first))
+            # the coil on a byte / word variable (reads back 0 / 1, not
+            # False / True), the safe state configured as the integer 0 / 1,
+            # and a second valve of the same process that rests confirmed
+            for first, var in enumerate(["byte", "word", "safeint",
+                                         "companion", "byte+companion",
+                                         "word+safeint", "companion",
+                                         "safeint"]):
+                shards.append(dict(moving=moving, safe=safe, L=L,
+                                   first=first, variant=var))
     return shards
 
 
-def make():
+def make(variant=""):
     ec = SimpleEtherCat("vf")
-    t, v = ecat.make_terminal(ec, 1, [("bit",), ("bit",)], [("bit",)],
+    out = ("B",) if "byte" in variant else ("H",) if "word" in variant \
+        else ("bit",)
+    t, v = ecat.make_terminal(ec, 1, [("bit",), ("bit",)], [out],
                               use_fmmu=False)
     valve = devices.Valve()
     valve.openSwitch = v[SyncManager.IN, 0]
     valve.closedSwitch = v[SyncManager.IN, 1]
     valve.coil = v[SyncManager.OUT, 0]
-    sg = SyncGroup(ec, [valve])
+    devs = [valve]
+    valve.companion = None
+    if "companion" in variant:
+        t2, v2 = ecat.make_terminal(ec, 2, [("bit",), ("bit",)], [("bit",)],
+                                    use_fmmu=False)
+        other = devices.Valve()
+        other.openSwitch = v2[SyncManager.IN, 0]
+        other.closedSwitch = v2[SyncManager.IN, 1]
+        other.coil = v2[SyncManager.OUT, 0]
+        devs.append(other)
+        valve.companion = (other, t2)
+    sg = SyncGroup(ec, devs)
     sg.allocate()
     sg.current_data = bytearray(max(64, sg.packet.size))
     # independent positions of the three bits in the frame
@@ -78,9 +100,19 @@ def run_shard(params):
     old = devices.monotonic
     devices.monotonic = clock
     try:
-        valve, sg, pos = make()
+        variant = params.get("variant", "")
+        valve, sg, pos = make(variant)
+        if variant:
+            res.count("shards_with_variant[" + variant + "]")
         valve.movingTime = moving
-        valve.safeState = safe
+        valve.safeState = int(safe) if "safeint" in variant else safe
+        comp = valve.companion
+        if comp:
+            # the companion rests closed with its closed switch active
+            ca = sg.pdo_assign[comp[1]]
+            cpos = ca[SyncManager.IN]
+            comp[0].movingTime = moving
+            comp[0].safeState = False
         data = sg.current_data
         allsteps = steps_for(moving)
         firsts = allsteps[params["first"]::8]
@@ -115,6 +147,10 @@ def run_shard(params):
                     clock.t = 1000.0
                     valve.movingTime = moving
                     valve.reset()
+                    if comp:
+                        comp[0].__dict__.pop("target", None)
+                        comp[0].__dict__.pop("error", None)
+                        comp[0].reset()
                     m_coil, m_target, m_error = False, False, False
                     m_last = clock.t
                     nontriv = False
@@ -140,6 +176,9 @@ def run_shard(params):
                         setbit("open", o)
                         setbit("closed", c)
                         err_before = bool(valve.error)
+                        if comp:
+                            data[cpos] = (data[cpos] & ~3) | 2   # closed
+                            comp[0].update()
                         valve.update()
                         g_coil, g_target, g_error = (
                             getbit("coil"), bool(valve.target),
